@@ -30,7 +30,8 @@ ANCHORS = [
     'pycaption.geometry:Layout.fit_to_screen',
 ]
 REQUIRE = {'pairs_equal': 20, 'pairs_one_leaf_apart': 20, 'strings_checked': 1000,
-           'strings_accepted': 5, 'receiver_checks_after_raise': 3}
+           'strings_accepted': 5, 'receiver_checks_after_raise': 3,
+           'layout_pairs_differing_only_in_webvtt_positioning': 10}
 EXHAUSTIVE = {'quick': False, 'thorough': False}
 ASSUMPTIONS = ['magnitudes are non-negative finite floats',
                'string alphabet is the one named in the property (no newline, ASCII digits only)']
@@ -207,7 +208,10 @@ def cases(ctx):
             b = _mutate_leaf(cls, a, rng)
         else:
             b = _rand(cls, rng)
-        yield {'kind': 'pair', 'cls': cls, 'a': a, 'b': b}
+        case = {'kind': 'pair', 'cls': cls, 'a': a, 'b': b}
+        if cls == 'Layout' and rng.random() < 0.3:
+            case['webvtt'] = [rng.choice([None, 'align:left', 'line:10%']), rng.choice([None, 'align:left', 'size:50%'])]
+        yield case
     # strings
     length = 4 if ctx.tier == 'quick' else 6
     for p in itertools.product(ALPHABET, repeat=2):
@@ -231,7 +235,8 @@ def cases(ctx):
     for _ in range(ctx.budget(3000, 200000)):
         r = rng.random()
         if r < 0.3:
-            v = rng.choice(geom.MAGS + [0.005, 0.125, 0.375, 2.675, 1.005, 99.995, 1e-9, 12345678.125])
+            v = rng.choice(geom.MAGS + [0.005, 0.125, 0.375, 2.675, 1.005, 99.995, 1e-9, 12345678.125,
+                                        1e13, 1e15, 1e16, 1e17, 123456789012345680.0, 2.5e20])
         elif r < 0.6:
             v = round(rng.uniform(0, 1000), rng.randrange(0, 6))
         else:
@@ -317,6 +322,11 @@ def check(case, ctx):
             ctx.count('pairs_equal')
         elif _leaf_distance(ca, cb) <= 1:
             ctx.count('pairs_one_leaf_apart')
+        if cls == 'Layout' and case.get('webvtt'):
+            # the raw WebVTT settings string is not a geometric component
+            a.webvtt_positioning, b.webvtt_positioning = case['webvtt']
+            ctx.count('layout_pairs_differing_only_in_webvtt_positioning' if want else 'layout_pairs_with_webvtt')
+            got_ab, got_ba = bool(a == b), bool(b == a)
         if got_ab != want or got_ba != want:
             fails.append({'what': 'equality disagrees with component-wise equality',
                           'expected': want, 'a==b': got_ab, 'b==a': got_ba})
